@@ -11,6 +11,8 @@ import (
 	"github.com/massnetorg/mass-core/consensus"
 	"github.com/massnetorg/mass-core/massutil"
 	"github.com/massnetorg/mass-core/wire"
+	"massnet.org/mass-wallet/api"
+	pb "massnet.org/mass-wallet/api/proto"
 	"massnet.org/mass-wallet/config"
 	"massnet.org/mass-wallet/masswallet/keystore"
 	"pgregory.net/rapid"
@@ -103,6 +105,130 @@ func (w *World) c12Audit(t *rapid.T, m *mwallet) {
 			t.Fatalf("issued address #%d %s: used=%v, best chain pays it: %v\n  %s", i, ia.Addr, e.used, funded, w.journalTail(25))
 		}
 	}
+	w.c12AuditAPI(t, m)
+}
+
+// c12CreateViaAPI issues an address through the API handler, which adds a limit of its own on the
+// number of unused addresses per class (refusing earlier than the gap rule is allowed; issuing
+// against the gap rule, skipping an index or issuing after a refusal is not).
+func (w *World) c12CreateViaAPI(t *rapid.T, m *mwallet, class uint16, allowed bool, gap uint32) {
+	if _, err := w.env.W.UseWallet(m.id); err != nil {
+		t.Fatalf("UseWallet: %v", err)
+	}
+	n := uint32(len(m.issued))
+	unused := 0
+	for _, ia := range m.issued {
+		if ia.Class != class {
+			continue
+		}
+		isStaking := ia.Class == massutil.AddressClassWitnessStaking
+		if !w.fundedOnChain(ia.Hash, &isStaking) {
+			unused++
+		}
+	}
+	st := w.env.Cfg.Wallet.Settings
+	limit := int(st.AddressGapLimit - st.MaxUnusedStakingAddress)
+	if class == massutil.AddressClassWitnessStaking {
+		limit = int(st.MaxUnusedStakingAddress)
+	}
+	w.record(hstep{Kind: "newAddress", Wallet: m.id, Class: class})
+	r, err := w.apiSrv(t).CreateAddress(bg, &pb.CreateAddressRequest{Version: int32(class)})
+	w.flag("api-create-address")
+	if err != nil {
+		switch apiCode(err) {
+		case api.ErrAPIUnusedAddressLimit:
+			if unused < limit {
+				t.Fatalf("API CreateAddress(class %d) refused with the unused-address limit although only %d of the allowed %d unused addresses of that class exist\n  %s", class, unused, limit, w.journalTail(25))
+			}
+			w.flag("api-unused-limit-refusal")
+		case api.ErrAPIGapLimit:
+			if allowed {
+				t.Fatalf("API CreateAddress #%d refused with the gap-limit error although one of the last %d addresses has chain history (or fewer exist)\n  %s", n, gap, w.journalTail(25))
+			}
+			w.flag("gap-refusal")
+		default:
+			t.Fatalf("API CreateAddress(class %d): %v", class, err)
+		}
+		w.logf("newAddress via API refused: %v", err)
+		return
+	}
+	if !allowed {
+		t.Fatalf("API CreateAddress issued #%d %s although none of the last %d addresses has chain history\n  %s", n, r.Address, gap, w.journalTail(25))
+	}
+	if unused >= limit {
+		t.Fatalf("API CreateAddress issued %s although %d unused addresses of class %d exist (limit %d)", r.Address, unused, class, limit)
+	}
+	k := m.keys.Addr(n)
+	want := k.Std
+	if class == massutil.AddressClassWitnessStaking {
+		want = k.Staking
+	}
+	if r.Address != want {
+		t.Fatalf("API CreateAddress #%d = %s, derivation at external index %d gives %s", n, r.Address, n, want)
+	}
+	m.issued = append(m.issued, issuedAddr{Index: n, Class: class, Addr: r.Address, Std: k.Std, Hash: k.ScriptHash})
+	m.owns[k.ScriptHash] = true
+	w.logf("newAddress via API w=%s class=%d -> %s", m.id[:8], class, r.Address)
+}
+
+// c12AuditAPI compares the API's per-class address listings with the wallet's own listing (which
+// c12Audit has just compared with the model): same entries, flags and forms, every issued address of
+// the class present.
+func (w *World) c12AuditAPI(t *rapid.T, m *mwallet) {
+	srv := w.apiSrv(t)
+	type ent struct {
+		used  bool
+		class uint16
+		std   string
+	}
+	all, err := w.env.W.GetAddresses(math.MaxUint16)
+	if err != nil {
+		t.Fatalf("GetAddresses: %v", err)
+	}
+	wantAll := map[string]ent{}
+	for _, a := range all {
+		wantAll[a.Address] = ent{a.Used, a.AddressClass, a.StdAddress}
+	}
+	gotAll := map[string]ent{}
+	for _, class := range []uint16{massutil.AddressClassWitnessV0, massutil.AddressClassWitnessStaking} {
+		r, err := srv.GetAddresses(bg, &pb.GetAddressesRequest{Version: int32(class)})
+		if err != nil {
+			t.Fatalf("API GetAddresses(%d): %v", class, err)
+		}
+		for _, d := range r.Details {
+			if _, dup := gotAll[d.Address]; dup {
+				t.Fatalf("API GetAddresses lists %s twice", d.Address)
+			}
+			if uint16(d.Version) != class {
+				t.Fatalf("API GetAddresses(%d) lists %s of class %d", class, d.Address, d.Version)
+			}
+			gotAll[d.Address] = ent{d.Used, uint16(d.Version), d.StdAddress}
+		}
+		for i, ia := range m.issued {
+			if ia.Class != class {
+				continue
+			}
+			e, ok := gotAll[ia.Addr]
+			if !ok {
+				t.Fatalf("issued address #%d %s (class %d) is not listed by API GetAddresses(%d)\n  %s", i, ia.Addr, class, class, w.journalTail(25))
+			}
+			isStaking := class == massutil.AddressClassWitnessStaking
+			if funded := w.fundedOnChain(ia.Hash, &isStaking); e.used != funded {
+				t.Fatalf("API GetAddresses: issued address #%d %s used=%v, best chain pays it: %v\n  %s", i, ia.Addr, e.used, funded, w.journalTail(25))
+			}
+			if isStaking && e.std != ia.Std {
+				t.Fatalf("API GetAddresses: staking address %s reports standard form %q, want %s", ia.Addr, e.std, ia.Std)
+			}
+		}
+	}
+	if len(gotAll) != len(wantAll) {
+		t.Fatalf("API GetAddresses lists %d addresses over both classes, the wallet lists %d", len(gotAll), len(wantAll))
+	}
+	for a, g := range gotAll {
+		if wnt, ok := wantAll[a]; !ok || wnt != g {
+			t.Fatalf("API GetAddresses entry %s = %+v, the wallet's own listing has %+v (present=%v)", a, g, wnt, ok)
+		}
+	}
 }
 
 // scanRule is the restore rule of the statement: derive from index 0 until gap-limit consecutive
@@ -152,6 +278,10 @@ func propC12(t *rapid.T) {
 			}
 			if len(m.issued) >= 30 {
 				t.Skip("enough addresses")
+			}
+			if rapid.IntRange(0, 2).Draw(t, "viaAPI") == 0 {
+				w.c12CreateViaAPI(t, m, class, allowed, gap)
+				return
 			}
 			addr, err := w.issueAddress(t, m, class)
 			if !allowed {
